@@ -741,7 +741,19 @@ func (l *lane) restartCheck(lastCase string) bool {
 	}
 	before := l.canon
 	l.w.kill()
-	switch l.w.start(120 * time.Second) {
+	res := l.w.start(120 * time.Second)
+	for try := 0; res == startSlow && try < 3; try++ {
+		// the known start-up deadlock is intermittent: report it, then start
+		// the node again so that the comparison below still takes place
+		d := l.w.dump()
+		if !nestedRLockDeadlock(d) {
+			r.Inconclusive("(c) restarted worker was not ready within the watchdog")
+			return l.fresh()
+		}
+		reportStartDeadlock(strings.TrimPrefix(lastCase, "exec/"), d)
+		res = l.w.start(120 * time.Second)
+	}
+	switch res {
 	case startDied:
 		rep, kind, _ := l.w.crashReport()
 		if kind == "" {
